@@ -106,6 +106,7 @@ def write_csv(path, head, units, rows):
 def write_xlsx(path, case):
     import openpyxl
 
+    options = case.get("options") or {}
     wb = openpyxl.Workbook()
     ws = wb.active
     ws.title = "Stream Data"
@@ -120,7 +121,12 @@ def write_xlsx(path, case):
         wu.append(r)
     wo = wb.create_sheet("Options")
     wo.append(["### General parameters ###", "Value (blank = default value)"])
-    wo.append(["DT_CONT", None])
+    for key in ("TOP_ZONE_NAME", "DT_CONT", "DT_PHASE_CHANGE", "DO_BALANCED_CC", "DO_VERTICAL_GCC"):
+        wo.append([key, options.get(key)])
+    wo.append(["### Targeting analysis flags ###", None])
+    for key, val in options.items():
+        if key not in ("DT_CONT", "DT_PHASE_CHANGE", "DO_BALANCED_CC", "DO_VERTICAL_GCC"):
+            wo.append([key, val])
     wb.save(path)
 
 
@@ -145,6 +151,10 @@ def eval_channels(case) -> Outcome:
 
     out = Outcome()
     base = {"streams": case["streams"], "utilities": case["utilities"]}
+    opts = case.get("options")
+    if opts:
+        base["options"] = opts
+        out.labels.add("with-options")
     names = [s["name"] for s in base["streams"]] + [s["zone"] for s in base["streams"]] + [u["name"] for u in base["utilities"]]
     awkward = sorted({n for n in names if n in AWKWARD})
     for n in awkward:
@@ -176,6 +186,8 @@ def eval_channels(case) -> Outcome:
                 out.fail(f"C16.channel_{tag}", f"channel {tag} differs from the plain-dict result; first difference: {diff}")
 
         for ch in case["channels"]:
+            if opts and ch in ("csvdir", "csvpair"):
+                continue  # the CSV bundle has no options file
             S.clear_graph_accumulator()
             if ch == "model":
                 okm, model = call_sut(TargetInput.model_validate, copy.deepcopy(base))
@@ -325,7 +337,10 @@ def channel_case(draw, tier):
         us.append(u)
     chans = draw(st.lists(st.sampled_from(["model", "vu", "json", "from_json", "csvdir", "csvpair", "xlsx"]), min_size=3, max_size=5, unique=True))
     ops = draw(st.lists(st.sampled_from(["target", "target", "export"]), min_size=0, max_size=3))
-    return {"streams": ss, "utilities": us, "channels": chans, "ops": ops}
+    case = {"streams": ss, "utilities": us, "channels": chans, "ops": ops}
+    if draw(st.integers(0, 3)) == 0:
+        case["options"] = draw(st.sampled_from([{"DT_CONT": 10.0}, {"DT_CONT": 2.5, "DT_PHASE_CHANGE": 0.5}, {"DO_VERTICAL_GCC": True}, {"DO_BALANCED_CC": False, "DT_CONT": 7.5}]))
+    return case
 
 
 @st.composite
